@@ -304,6 +304,111 @@ func TestC35(t *testing.T) {
 		r.Case(fmt.Sprintf("forge|%s|%04x", id.Str(), suite), true)
 	}
 	r.Count("forged_resumptions", int64(forged))
+	// ---- histories over several Configs related by Clone ----
+	// Model: every Config owns its key list (Clone copies it); SetSessionTicketKeys replaces
+	// the list of that Config only; a ticket opens on a Config iff the key it was sealed under
+	// is in that Config's list at that moment.
+	{
+		nh := mon.Pick(300, 20000)
+		for hi := 0; hi < nh; hi++ {
+			rg := Sub("C35clone", hi)
+			type cfgModel struct {
+				cfg  *tls.Config
+				keys [][32]byte
+			}
+			newKeys := func() [][32]byte {
+				ks := make([][32]byte, 1+rg.Intn(3))
+				for k := range ks {
+					rg.Read(ks[k][:])
+				}
+				return ks
+			}
+			first := &cfgModel{cfg: &tls.Config{Time: peer.FixedTime}}
+			first.keys = newKeys()
+			first.cfg.SetSessionTicketKeys(first.keys)
+			cfgs := []*cfgModel{first}
+			type sealedT struct {
+				ticket []byte
+				key    [32]byte
+				want   []byte
+			}
+			var tickets []sealedT
+			var trace []string
+			for step := 0; step < 4+rg.Intn(10); step++ {
+				ci := rg.Intn(len(cfgs))
+				c := cfgs[ci]
+				switch rg.Intn(5) {
+				case 0:
+					if len(cfgs) < 4 {
+						cl := &cfgModel{cfg: c.cfg.Clone(), keys: append([][32]byte(nil), c.keys...)}
+						cfgs = append(cfgs, cl)
+						trace = append(trace, fmt.Sprintf("cfg%d=Clone(cfg%d)", len(cfgs)-1, ci))
+					}
+				case 1:
+					c.keys = newKeys()
+					if rg.Intn(3) == 0 && len(tickets) > 0 { // keep an old key at a later position
+						c.keys = append(c.keys, tickets[rg.Intn(len(tickets))].key)
+					}
+					c.cfg.SetSessionTicketKeys(c.keys)
+					trace = append(trace, fmt.Sprintf("cfg%d.SetSessionTicketKeys(%d keys)", ci, len(c.keys)))
+				default:
+					st := base[rg.Intn(len(base))]
+					want, _ := st.Bytes()
+					tk, err := c.cfg.EncryptTicket(tls.ConnectionState{}, st)
+					if err != nil {
+						r.Violation(map[string]string{"kind": "clone_history_encrypt_error"}, err.Error(), map[string]any{"history": hi, "trace": trace})
+						continue
+					}
+					tickets = append(tickets, sealedT{tk, c.keys[0], want})
+					trace = append(trace, fmt.Sprintf("t%d=cfg%d.EncryptTicket", len(tickets)-1, ci))
+				}
+				// every ticket against every config
+				for ti, tk := range tickets {
+					for cj, cm := range cfgs {
+						expect := false
+						for _, k := range cm.keys {
+							if k == tk.key {
+								expect = true
+							}
+						}
+						got, err := cm.cfg.DecryptTicket(tk.ticket, tls.ConnectionState{})
+						opened := err == nil && got != nil
+						r.Count("clone_history_opens_tried", 1)
+						if opened != expect {
+							kind := "clone_history_ticket_rejected"
+							if opened {
+								kind = "clone_history_ticket_opens_without_key"
+							}
+							r.Violation(map[string]string{"kind": kind}, fmt.Sprintf("history %d: ticket t%d on cfg%d: opened=%v, but the key it was sealed under is configured there=%v", hi, ti, cj, opened, expect),
+								map[string]any{"history": hi, "trace": append([]string(nil), trace...)})
+						} else if opened {
+							if gb, _ := got.Bytes(); !bytes.Equal(gb, tk.want) {
+								r.Violation(map[string]string{"kind": "clone_history_state_differs"}, fmt.Sprintf("history %d: state differs", hi), map[string]any{"history": hi, "trace": trace})
+							}
+						}
+					}
+				}
+				// the installed keys of every config are what TicketKeyFromBytes derives from its list
+				for cj, cm := range cfgs {
+					inst := tls.VerifServerTicketKeys(cm.cfg)
+					ok := len(inst) == len(cm.keys)
+					for k := 0; ok && k < len(inst); k++ {
+						d := tls.TicketKeyFromBytes(cm.keys[k])
+						ok = inst[k].AesKey == d.AesKey && inst[k].HmacKey == d.HmacKey
+					}
+					if !ok {
+						r.Violation(map[string]string{"kind": "clone_history_installed_keys_differ"}, fmt.Sprintf("history %d: cfg%d no longer holds the keys derived from the key set configured on it", hi, cj),
+							map[string]any{"history": hi, "trace": append([]string(nil), trace...)})
+					}
+				}
+			}
+			r.Case(fmt.Sprintf("clone|%d cfgs|%d tickets", len(cfgs), len(tickets)), len(cfgs) > 1 && len(tickets) > 0)
+			if hi < 2 {
+				r.Sample(map[string]any{"clone_history": trace})
+			}
+		}
+		r.Floor("clone_history_opens_tried", 2000)
+	}
 	// ---- automatically managed keys under a logical clock ----
 	// Documented behaviour (Config.SessionTicketKey): without configured keys the server
 	// rotates its ticket key every day and drops keys after seven days.  Histories of
